@@ -80,7 +80,7 @@ func (c *Ctx) bufferWrites(fn *ssa.Function, buf ssa.Value, env map[ssa.Value]*X
 	sf := func(f Fact) string {
 		g := f
 		g.Cond = subst(f.Cond, env)
-		return factString(g)
+		return c.regFact(g)
 	}
 	base := map[string]bool{}
 	for _, f := range c.FactsAt(ws[0].In.Block()) {
@@ -97,6 +97,161 @@ func (c *Ctx) bufferWrites(fn *ssa.Function, buf ssa.Value, env map[ssa.Value]*X
 	return ws
 }
 
+// topicStates evaluates a guard set over the three states of the optional
+// topic (absent, empty, non-empty) and renders the set of states in which all
+// guards hold; ok is false when a guard depends on anything else.
+func (c *Ctx) topicStates(guards []string) (string, bool) {
+	names := []string{"absent", "empty", "non-empty"}
+	var in []string
+	for st := 0; st < 3; st++ {
+		if st == 1 {
+			continue // appending an empty topic appends nothing: either way is the same payload
+		}
+		all := true
+		for _, g := range guards {
+			f, known := c.factOf[g]
+			if !known {
+				return "", false
+			}
+			v, ok := c.evalTopic(f.Cond, st, 0)
+			if !ok || (v != "true" && v != "false") {
+				return "", false
+			}
+			if (v == "true") != f.Val {
+				all = false
+			}
+		}
+		if all {
+			in = append(in, names[st])
+		}
+	}
+	return "topic ∈ {" + strings.Join(in, ", ") + "}", true
+}
+
+// evalTopic evaluates x in topic state st (0 absent, 1 empty, 2 non-empty) to one
+// of nil, ptr, 0, pos, true, false.
+func (c *Ctx) evalTopic(x *X, st int, depth int) (string, bool) {
+	if x == nil || depth > 6 {
+		return "", false
+	}
+	zp := func() (string, bool) {
+		if st == 2 {
+			return "pos", true
+		}
+		return "0", true
+	}
+	isTopic := func(y *X) bool {
+		_, m := Match(Field("Topic", Any()), y)
+		return m
+	}
+	switch x.Op {
+	case "nil":
+		return "nil", true
+	case "const":
+		switch x.Name {
+		case "0", `""`:
+			return "0", true
+		case "true", "false":
+			return x.Name, true
+		}
+		return "", false
+	case "deref":
+		if isTopic(x.Args[0]) {
+			return zp()
+		}
+		return c.evalTopic(x.Args[0], st, depth+1)
+	case "field":
+		if isTopic(x) {
+			if _, isAddr := x.V.(*ssa.FieldAddr); isAddr {
+				return "", false // the address of the field, not its value
+			}
+			if st == 0 {
+				return "nil", true
+			}
+			return "ptr", true
+		}
+		return "", false
+	case "builtin":
+		if x.Name == "len" && len(x.Args) == 1 && isTopic(strip(x.Args[0])) {
+			return zp()
+		}
+		return "", false
+	case "not":
+		v, ok := c.evalTopic(x.Args[0], st, depth+1)
+		if !ok {
+			return "", false
+		}
+		switch v {
+		case "true":
+			return "false", true
+		case "false":
+			return "true", true
+		}
+		return "", false
+	case "binop":
+		l, ok1 := c.evalTopic(x.Args[0], st, depth+1)
+		r, ok2 := c.evalTopic(x.Args[1], st, depth+1)
+		if !ok1 || !ok2 {
+			return "", false
+		}
+		b := func(v bool) (string, bool) {
+			if v {
+				return "true", true
+			}
+			return "false", true
+		}
+		switch x.Name {
+		case "==", "!=":
+			if l == "pos" && r == "pos" {
+				return "", false
+			}
+			return b((l == r) == (x.Name == "=="))
+		case ">":
+			if r == "0" && (l == "0" || l == "pos") {
+				return b(l == "pos")
+			}
+		case "<":
+			if l == "0" && (r == "0" || r == "pos") {
+				return b(r == "pos")
+			}
+		case "&&":
+			return b(l == "true" && r == "true")
+		case "||":
+			return b(l == "true" || r == "true")
+		}
+		return "", false
+	case "phi":
+		ph, _ := x.V.(*ssa.Phi)
+		if ph == nil || len(ph.Edges) != len(x.Args) {
+			return "", false
+		}
+		val := ""
+		for i, a := range x.Args {
+			pred := ph.Block().Preds[i]
+			feasible := true
+			for _, f := range append(c.FactsAt(pred), edgeFact(c, pred, ph.Block())...) {
+				v, ok := c.evalTopic(subst(f.Cond, x.Env), st, depth+1)
+				if ok && (v == "true" || v == "false") && (v == "true") != f.Val {
+					feasible = false
+				}
+			}
+			if !feasible {
+				continue
+			}
+			v, ok := c.evalTopic(a, st, depth+1)
+			if !ok {
+				return "", false
+			}
+			if val != "" && val != v {
+				return "", false
+			}
+			val = v
+		}
+		return val, val != ""
+	}
+	return "", false
+}
+
 func factString(f Fact) string {
 	if f.Val {
 		return f.Cond.String()
@@ -111,36 +266,340 @@ func (c *Ctx) payloadWrites(fn *ssa.Function, data *X) ([]BufWrite, string) {
 }
 
 func (c *Ctx) payloadWritesEnv(fn *ssa.Function, data *X, env map[ssa.Value]*X) ([]BufWrite, string) {
-	b, ok := Match(Call("bytes.Buffer).Bytes", Bind("buf")), data)
-	if !ok {
-		// one level of wrapper: a helper of this repository whose single
-		// []byte result is the contents of a buffer it assembles
-		d := strip(data)
-		if d.Op == "extract" {
-			d = strip(d.Args[0])
+	alts, why, bad := c.assemble(fn, data, env, nil, 0)
+	if alts == nil {
+		if bad {
+			why = "WRONG: " + why
 		}
-		if call, isCall := d.V.(*ssa.Call); isCall && d.Op == "call" {
-			if callee := call.Call.StaticCallee(); callee != nil && len(callee.Blocks) > 0 && callee.Pkg == fn.Pkg {
+		return nil, why
+	}
+	return mergeAlts(alts)
+}
+
+// payAlt is one way the payload is put together: its pieces in order, each
+// with the branch facts under which it is appended.
+type payAlt struct {
+	ws    []BufWrite
+	facts [][]string // per piece: the facts holding where it is appended (and on the way out of this alternative)
+}
+
+func (c *Ctx) factStrings(b *ssa.BasicBlock, env map[ssa.Value]*X) []string {
+	var out []string
+	for _, f := range c.FactsAt(b) {
+		g := f
+		g.Cond = subst(f.Cond, env)
+		out = append(out, c.regFact(g))
+	}
+	return out
+}
+
+func (c *Ctx) regFact(f Fact) string {
+	s := factString(f)
+	if c.factOf == nil {
+		c.factOf = map[string]Fact{}
+	}
+	c.factOf[s] = f
+	return s
+}
+
+// assemble resolves a []byte expression to the ordered pieces it is made of.
+// Recognised: the contents of a local bytes.Buffer, append chains, a make
+// followed by copies at running offsets, a plain value (one piece), a choice
+// between those (phi, or the returns of a helper of this package). extra are
+// facts holding for the whole alternative. bad reports that the assembly is
+// understood and wrong (a copy over an earlier piece), as opposed to not understood.
+func (c *Ctx) assemble(fn *ssa.Function, data *X, env map[ssa.Value]*X, extra []string, depth int) (alts []payAlt, why string, bad bool) {
+	if depth > 4 {
+		return nil, "payload assembly nested too deeply: " + data.String(), false
+	}
+	withExtra := func(a payAlt) payAlt {
+		for i := range a.facts {
+			a.facts[i] = append(append([]string{}, a.facts[i]...), extra...)
+		}
+		return a
+	}
+	if b, ok := Match(Call("bytes.Buffer).Bytes", Bind("buf")), data); ok {
+		buf := b["buf"]
+		if _, isAlloc := buf.V.(*ssa.Alloc); !isAlloc {
+			return nil, "payload buffer is not a local of this function: " + buf.String(), false
+		}
+		ws := c.bufferWrites(fn, buf.V, env)
+		if len(ws) == 0 {
+			return nil, "no writes to the payload buffer found", false
+		}
+		a := payAlt{ws: ws}
+		for _, w := range ws {
+			a.facts = append(a.facts, c.factStrings(w.In.Block(), env))
+		}
+		return []payAlt{withExtra(a)}, "", false
+	}
+	d := strip(data)
+	if d.Op == "extract" {
+		if t := strip(d.Args[0]); t.Op == "call" {
+			d = t
+		}
+	}
+	switch d.Op {
+	case "phi":
+		ph, _ := d.V.(*ssa.Phi)
+		if ph == nil {
+			break
+		}
+		for i, e := range ph.Edges {
+			pred := ph.Block().Preds[i]
+			fs := append([]string{}, extra...)
+			fs = append(fs, c.factStrings(pred, env)...)
+			for _, f := range edgeFact(c, pred, ph.Block()) {
+				g := f
+				g.Cond = subst(f.Cond, env)
+				fs = append(fs, c.regFact(g))
+			}
+			sub, w, bd := c.assemble(fn, subst(c.E(e), env), env, fs, depth+1)
+			if sub == nil {
+				return nil, w, bd
+			}
+			alts = append(alts, sub...)
+		}
+		return alts, "", false
+	case "builtin":
+		if d.Name == "append" && len(d.Args) == 2 {
+			in, _ := d.V.(ssa.Instruction)
+			if in == nil {
+				break
+			}
+			heads, w, bd := c.assemble(fn, d.Args[0], env, extra, depth+1)
+			if heads == nil {
+				return nil, w, bd
+			}
+			here := append(c.factStrings(in.Block(), env), extra...)
+			for _, h := range heads {
+				h.ws = append(append([]BufWrite{}, h.ws...), BufWrite{Method: "append", Arg: d.Args[1], In: in})
+				h.facts = append(append([][]string{}, h.facts...), here)
+				alts = append(alts, h)
+			}
+			return alts, "", false
+		}
+	case "nil":
+		return []payAlt{{}}, "", false
+	case "makeslice":
+		ms, _ := d.V.(*ssa.MakeSlice)
+		if ms == nil {
+			break
+		}
+		a, w, bd := c.copiesInto(fn, ms, env)
+		if w != "" {
+			return nil, w, bd
+		}
+		return []payAlt{withExtra(a)}, "", false
+	case "call":
+		if call, isCall := d.V.(*ssa.Call); isCall {
+			if callee := call.Call.StaticCallee(); callee != nil && len(callee.Blocks) > 0 && callee.Pkg == fn.Pkg && callee.Signature.Results().Len() >= 1 {
+				cenv := c.callEnv(call, callee, env)
 				for _, blk := range callee.Blocks {
-					if ret, isRet := blk.Instrs[len(blk.Instrs)-1].(*ssa.Return); isRet && len(ret.Results) > 0 {
-						if ws, _ := c.payloadWritesEnv(callee, c.RetX(ret, 0), c.callEnv(call, callee, env)); ws != nil {
-							return ws, ""
+					ret, isRet := blk.Instrs[len(blk.Instrs)-1].(*ssa.Return)
+					if !isRet || len(ret.Results) == 0 {
+						continue
+					}
+					if len(ret.Results) > 1 {
+						if e := c.RetX(ret, len(ret.Results)-1); e.Op != "nil" && isErrorType(ret.Results[len(ret.Results)-1].Type()) {
+							continue // failure return of the helper
 						}
 					}
+					fs := append([]string{}, extra...)
+					fs = append(fs, c.factStrings(blk, cenv)...)
+					sub, w, bd := c.assemble(callee, subst(c.RetX(ret, 0), cenv), cenv, fs, depth+1)
+					if sub == nil {
+						return nil, w, bd
+					}
+					alts = append(alts, sub...)
+				}
+				if len(alts) > 0 {
+					return alts, "", false
 				}
 			}
 		}
-		return nil, "signed/verified bytes are not the contents of a bytes.Buffer assembled in this function: " + data.String()
 	}
-	buf := b["buf"]
-	if _, isAlloc := buf.V.(*ssa.Alloc); !isAlloc {
-		return nil, "payload buffer is not a local of this function: " + buf.String()
+	// a plain value: one piece
+	if in, ok := d.V.(ssa.Instruction); ok && in.Block() != nil && (d.Op == "call" || d.Op == "invoke" || depth > 0) {
+		var fs []string
+		if in.Parent() == fn {
+			fs = c.factStrings(in.Block(), env)
+		}
+		return []payAlt{{ws: []BufWrite{{Method: "value", Arg: data, In: in}}, facts: [][]string{append(fs, extra...)}}}, "", false
 	}
-	ws := c.bufferWrites(fn, buf.V, env)
-	if len(ws) == 0 {
-		return nil, "no writes to the payload buffer found"
+	return nil, "signed/verified bytes are not assembled in a way this rule follows (buffer writes, appends, make and copies): " + data.String(), false
+}
+
+// copiesInto reads 'p := make([]byte, n); copy(p, a); copy(p[len(a):], b)' as the pieces a, b.
+func (c *Ctx) copiesInto(fn *ssa.Function, ms *ssa.MakeSlice, env map[ssa.Value]*X) (payAlt, string, bool) {
+	var a payAlt
+	var prev *ssa.Call
+	for _, b := range fn.DomPreorder() {
+		for _, in := range b.Instrs {
+			call, ok := in.(*ssa.Call)
+			if !ok {
+				continue
+			}
+			bi, ok := call.Call.Value.(*ssa.Builtin)
+			if !ok || bi.Name() != "copy" || len(call.Call.Args) != 2 {
+				continue
+			}
+			dst := call.Call.Args[0]
+			var low ssa.Value
+			if sl, ok := dst.(*ssa.Slice); ok && sl.X == ssa.Value(ms) {
+				if sl.High != nil || sl.Max != nil {
+					return a, "copy into a bounded window of the payload: " + c.pos(call.Pos()), false
+				}
+				low = sl.Low
+			} else if dst != ssa.Value(ms) {
+				continue
+			}
+			src := subst(c.E(call.Call.Args[1]), env)
+			k := len(a.ws)
+			switch {
+			case k == 0:
+				if low != nil {
+					if cst, ok := low.(*ssa.Const); !ok || cst.Value == nil || cst.Value.ExactString() != "0" {
+						return a, "first copy into the payload is not at offset 0: " + c.pos(call.Pos()), false
+					}
+				}
+			default:
+				okOff := false
+				if low != nil {
+					lo := subst(c.E(low), env)
+					if _, m := Match(Op("builtin", "len", Is(a.ws[k-1].Arg)), lo); m && k == 1 {
+						okOff = true
+					}
+					if prev != nil && low == ssa.Value(prev) && k == 1 {
+						okOff = true
+					}
+					if !okOff && k > 1 {
+						return a, "more than two copies into the payload: running offset not followed at " + c.pos(call.Pos()), false
+					}
+				}
+				if !okOff {
+					off := "0"
+					if low != nil {
+						off = subst(c.E(low), env).String()
+					}
+					return a, "payload piece " + src.String() + " is copied at offset " + off + " (" + c.pos(call.Pos()) + "), not after the piece before it (" + a.ws[k-1].Arg.String() + "): it overwrites instead of following", true
+				}
+			}
+			a.ws = append(a.ws, BufWrite{Method: "copy", Arg: src, In: call})
+			a.facts = append(a.facts, c.factStrings(call.Block(), env))
+			prev = call
+		}
 	}
-	return ws, ""
+	if len(a.ws) == 0 {
+		return a, "no copies into the payload slice found", false
+	}
+	// the slice is long enough for all pieces: len = Σ len(piece)
+	ln := subst(c.E(ms.Len), env)
+	want := 0
+	var count func(x *X) bool
+	count = func(x *X) bool {
+		x = strip(x)
+		if x.Op == "binop" && x.Name == "+" {
+			return count(x.Args[0]) && count(x.Args[1])
+		}
+		for _, w := range a.ws {
+			if _, m := Match(Op("builtin", "len", Is(w.Arg)), x); m {
+				want++
+				return true
+			}
+		}
+		return false
+	}
+	sum := count(ln)
+	if sum && want < len(a.ws) {
+		return a, "payload slice length " + ln.String() + " leaves no room for every piece copied into it: the last copy is cut short", true
+	}
+	if !sum || want != len(a.ws) {
+		return a, "payload slice length " + ln.String() + " is not the sum of the lengths of the pieces copied into it", false
+	}
+	return a, "", false
+}
+
+// mergeAlts folds the alternatives into one sequence: the longest one, of which
+// every other must be a prefix; a piece carries as guards the facts common to
+// the alternatives containing it, less those common to all alternatives.
+func mergeAlts(alts []payAlt) ([]BufWrite, string) {
+	long := alts[0]
+	for _, a := range alts {
+		if len(a.ws) > len(long.ws) {
+			long = a
+		}
+	}
+	if len(long.ws) == 0 {
+		return nil, "payload is empty"
+	}
+	inter := func(sets [][]string) map[string]bool {
+		out := map[string]bool{}
+		for i, s := range sets {
+			m := map[string]bool{}
+			for _, f := range s {
+				m[f] = true
+			}
+			if i == 0 {
+				out = m
+				continue
+			}
+			for f := range out {
+				if !m[f] {
+					delete(out, f)
+				}
+			}
+		}
+		return out
+	}
+	var firsts [][]string
+	for _, a := range alts {
+		if len(a.ws) == 0 {
+			return nil, "one alternative of the payload is empty"
+		}
+		for i, w := range a.ws {
+			if w.Arg.String() != long.ws[i].Arg.String() {
+				return nil, "the alternatives of the payload are not prefixes of one sequence: " + writesString(a.ws) + " vs " + writesString(long.ws)
+			}
+		}
+		firsts = append(firsts, a.facts[0])
+	}
+	base := inter(firsts)
+	out := make([]BufWrite, len(long.ws))
+	for i := range long.ws {
+		out[i] = long.ws[i]
+		out[i].Guards = nil
+		var sets [][]string
+		for _, a := range alts {
+			if len(a.ws) > i {
+				sets = append(sets, a.facts[i])
+			}
+		}
+		for f := range inter(sets) {
+			if !base[f] {
+				out[i].Guards = append(out[i].Guards, f)
+			}
+		}
+		sort.Strings(out[i].Guards)
+	}
+	return out, ""
+}
+
+// payloadKey renders a piece sequence for comparison: how the bytes are appended
+// (buffer write, append, copy) does not matter, what is appended and when does.
+func (c *Ctx) payloadKey(ws []BufWrite) string {
+	var parts []string
+	for _, w := range ws {
+		switch w.Method {
+		case "Write", "WriteString", "append", "copy", "value":
+			w.Method = "bytes"
+		}
+		if st, ok := c.topicStates(w.Guards); ok && len(w.Guards) > 0 {
+			w.Guards = []string{st}
+		}
+		parts = append(parts, w.String())
+	}
+	return strings.Join(parts, " ; ")
 }
 
 func writesString(ws []BufWrite) string {
@@ -221,7 +680,11 @@ func runC03(c *Ctx) {
 	// ---- V2 sibling payload ------------------------------------------------------------------
 	vw, why := c.payloadWrites(validate.SSA, vf.X.Args[1])
 	if vw == nil {
-		c.Unk("C03.V2-payload-agreement", validate.Name+" › payload", vf.In.Pos(), why)
+		if strings.HasPrefix(why, "WRONG: ") {
+			c.Bad("C03.V2-payload-agreement", validate.Name+" › payload", vf.In.Pos(), strings.TrimPrefix(why, "WRONG: "))
+		} else {
+			c.Unk("C03.V2-payload-agreement", validate.Name+" › payload", vf.In.Pos(), why)
+		}
 	}
 	signs := c.Calls(sign.SSA, Invoke("crypto.PrivKey.Sign"))
 	var sw []BufWrite
@@ -230,19 +693,24 @@ func runC03(c *Ctx) {
 	} else {
 		sw, why = c.payloadWrites(sign.SSA, signs[0].X.Args[1])
 		if sw == nil {
-			c.Unk("C03.V2-payload-agreement", sign.Name+" › payload", signs[0].In.Pos(), why)
+			if strings.HasPrefix(why, "WRONG: ") {
+				c.Bad("C03.V2-payload-agreement", sign.Name+" › payload", signs[0].In.Pos(), strings.TrimPrefix(why, "WRONG: "))
+			} else {
+				c.Unk("C03.V2-payload-agreement", sign.Name+" › payload", signs[0].In.Pos(), why)
+			}
 		}
 	}
 	if vw != nil && sw != nil {
-		c.Check(writesString(vw) == writesString(sw), "C03.V2-payload-agreement", "head.Sign ≍ head.Validate › write sequence", vf.In.Pos(),
+		c.Check(c.payloadKey(vw) == c.payloadKey(sw), "C03.V2-payload-agreement", "head.Sign ≍ head.Validate › write sequence", vf.In.Pos(),
 			"both assemble: "+writesString(vw), "signer and verifier assemble different payloads: sign="+writesString(sw)+" verify="+writesString(vw))
 		// the sequence is CID bytes, then topic iff non-empty
 		shape := len(vw) == 2
 		if shape {
 			_, a := Match(Call("cid.Cid).Bytes", Field("Cid", Field("Head", Any()))), vw[0].Arg)
 			_, b := Match(Field("Topic", Any()), vw[1].Arg)
-			shape = a && b && vw[0].Method == "Write" && vw[1].Method == "WriteString" && len(vw[0].Guards) == 0 && len(vw[1].Guards) == 1 &&
-				strings.Contains(vw[1].Guards[0], "Topic") && strings.HasPrefix(vw[1].Guards[0], "!") && strings.HasSuffix(vw[1].Guards[0], "== 0)")
+			bytesOf := func(m string) bool { return m == "Write" || m == "WriteString" || m == "append" || m == "copy" || m == "value" }
+			st, known := c.topicStates(vw[1].Guards)
+			shape = a && b && bytesOf(vw[0].Method) && bytesOf(vw[1].Method) && len(vw[0].Guards) == 0 && known && st == "topic ∈ {non-empty}"
 		}
 		c.Check(shape, "C03.V2-payload-agreement", "head payload › CID bytes then topic iff non-empty", vf.In.Pos(),
 			"payload = Head.Cid.Bytes() ; *Topic iff len(*Topic) != 0", "payload is not (head CID bytes, then topic iff non-empty): "+writesString(vw))
